@@ -112,7 +112,6 @@ type Sched struct {
 	freeRunDeadline time.Duration
 	syncSwitch      bool  // the hand-off in progress was forced at a synchronisation point
 	Naps            int   // long stalls imposed right after a synchronisation point
-	TestNapAt       int   // experiments only: nap exactly at the n-th forced synchronisation switch
 	syncCountdown   int64 // synchronisation points until a forced switch (-1: never)
 	SyncPoints      int   // synchronisation points passed
 	SyncSwitches    int   // context switches forced at synchronisation points
@@ -580,12 +579,6 @@ func (s *Sched) Run() {
 			// (one switch in four: if every caller napped at every
 			// synchronisation point they would merely take turns)
 			nap := []uint64{0, 0, 0, 0, 0, 0, 0, 0, 0, 0, 0, 0, 20_000, 200_000, 2_000_000, 2_000_000}[s.T.Choose("sched", "nap", 16)]
-			if s.TestNapAt > 0 {
-				nap = 0
-				if s.SyncSwitches == s.TestNapAt {
-					nap = 2_000_000
-				}
-			}
 			if nap > 0 {
 				next.sleepUntil = s.Steps + nap
 				s.Naps++
